@@ -324,6 +324,134 @@ fn dfs_single<S: Sch>(rec: &mut Rec, ctx: &Ctx<S>, unit: &str, pre: usize, h: &m
     h.vpre.pop();
 }
 
+/// Histories with WIDE operations: `open(2 polynomials)`, then one operation over N polynomials at one point
+/// (`open`, a batch with all N under one point label plus a second label, or N single-term combinations at one point),
+/// then `open(3)` - all on one sponge pair.  N runs over a ladder that crosses 8, 16 and 32 (code that switches to
+/// another accumulation path from some group size on).  Every step is accepted and leaves prover and verifier sponge
+/// equal; the last proof is rejected under the sponge it would have met without the wide step.
+pub fn wide_histories<S: Sch>(rec: &mut Rec) {
+    let cfg = slice_b::<S>();
+    let ladder: Vec<usize> = if rec.thorough() { vec![7, 9, 15, 16, 17, 31, 33, 65] } else { vec![9, 17, 33] };
+    let mut keys: Option<Keys<S>> = None;
+    for n in ladder {
+        for kind in ["open", "batch", "comb"] {
+            let id = format!("{}/H/wide/n={}/{}", S::NAME, n, kind);
+            if !rec.take(&id) {
+                continue;
+            }
+            if keys.is_none() {
+                keys = build_keys::<S>(&cfg, rec.seed).ok();
+            }
+            let keys = match &keys {
+                Some(k) => k,
+                None => return,
+            };
+            rec.dim("scheme", S::NAME);
+            let base = slice_b_polys::<S>(&cfg, rec.seed);
+            // members cycle through the slice-B polynomials (plain; bounded + hiding; zero with a bound)
+            let polys: Vec<LP<S>> = (0..n).map(|k| lp::<S>(&format!("w{:02}", k), base[k % 3].polynomial().clone(), base[k % 3].degree_bound(), base[k % 3].hiding_bound())).collect();
+            let c = match commit_set::<S>(keys, polys, rec.seed, 0) {
+                Ok(c) => c,
+                Err(_) => continue,
+            };
+            let labels = slice_b_labels::<S>(&cfg, rec.seed);
+            let (z1, z2) = (labels[0].1.clone(), labels[2].1.clone());
+            let (pr, cr, sr) = c.refs();
+            let mut ps = sponge_pre::<S::F>(1);
+            let mut vs = sponge_pre::<S::F>(1);
+            let mut ok = true;
+            let mut step = |rec: &mut Rec, name: &str, d: Dec, ps: &Sponge<S::F>, vs: &Sponge<S::F>| -> bool {
+                rec.count_points(1);
+                rec.op(2);
+                rec.obs(&format!("{}|wide|{}|{}", S::NAME, name, d.class()));
+                if !d.accepted() {
+                    rec.violation(&format!("C11/{}/wide/{}/not-accepted", S::NAME, name), &id, format!("honest step `{}` of the history open(2), {}({}), open(3) is not accepted: {}", name, kind, n, d.short()));
+                    return false;
+                }
+                if fingerprint(ps) != fingerprint(vs) {
+                    rec.violation(&format!("C11/{}/wide/{}/sponge-mismatch", S::NAME, name), &id, format!("prover and verifier sponge differ after step `{}` of the history open(2), {}({}), open(3)", name, kind, n));
+                    return false;
+                }
+                true
+            };
+            let values = |idx: &[usize], z: &S::Pt| -> Vec<S::F> { idx.iter().map(|i| c.polys[*i].polynomial().evaluate(z)).collect() };
+            // step 1: open(2) at z2
+            let mut rng = seed_rng(rec.seed, 20);
+            let mut vr = seed_rng(rec.seed, 40);
+            match do_open::<S>(&keys.ck, &pr[..2], &cr[..2], &z2, &mut ps, &sr[..2], Some(&mut rng as &mut dyn RngCore)) {
+                Ok(pf) => {
+                    let d = do_check::<S>(&keys.vk, &cr[..2], &z2, &values(&[0, 1], &z2), &pf, &mut vs, Some(&mut vr as &mut dyn RngCore));
+                    ok &= step(rec, "open(2)", d, &ps, &vs);
+                }
+                Err(_) => ok = false,
+            }
+            if !ok {
+                continue;
+            }
+            let before_wide = vs.clone();
+            // step 2: the wide operation
+            let all: Vec<usize> = (0..n).collect();
+            let d = match kind {
+                "open" => match do_open::<S>(&keys.ck, &pr, &cr, &z1, &mut ps, &sr, Some(&mut rng as &mut dyn RngCore)) {
+                    Ok(pf) => do_check::<S>(&keys.vk, &cr, &z1, &values(&all, &z1), &pf, &mut vs, Some(&mut vr as &mut dyn RngCore)),
+                    Err(o) => Dec::Err(format!("open: {}", o.short())),
+                },
+                "batch" => {
+                    let mut qs = QuerySet::<S::Pt>::new();
+                    for k in 0..n {
+                        qs.insert((format!("w{:02}", k), ("a".to_string(), z1.clone())));
+                    }
+                    qs.insert(("w00".to_string(), ("c".to_string(), z2.clone())));
+                    let ev = true_evals::<S>(&c, &qs);
+                    match do_batch_open::<S>(&keys.ck, &pr, &cr, &qs, &mut ps, &sr, Some(&mut rng as &mut dyn RngCore)) {
+                        Ok(pf) => do_batch_check::<S>(&keys.vk, &cr, &qs, &ev, &pf, &mut vs, &mut vr),
+                        Err(o) => Dec::Err(format!("batch_open: {}", o.short())),
+                    }
+                }
+                _ => {
+                    let mut lcs = Vec::new();
+                    let mut qs = QuerySet::<S::Pt>::new();
+                    let mut ev = Evaluations::new();
+                    for k in 0..n {
+                        let name = format!("lc{:02}", k);
+                        lcs.push(LinearCombination::<S::F>::new(name.clone(), vec![(S::F::one(), format!("w{:02}", k))]));
+                        qs.insert((name.clone(), ("a".to_string(), z1.clone())));
+                    }
+                    // evaluations are keyed by (label, point): one entry per combination
+                    for k in 0..n {
+                        ev.insert((format!("lc{:02}", k), z1.clone()), c.polys[k].polynomial().evaluate(&z1));
+                    }
+                    match do_open_comb::<S>(&keys.ck, &lcs, &pr, &cr, &qs, &mut ps, &sr, Some(&mut rng as &mut dyn RngCore)) {
+                        Ok(pf) => do_check_comb::<S>(&keys.vk, &lcs, &cr, &qs, &ev, &pf, &mut vs, &mut vr),
+                        Err(o) => Dec::Err(format!("open_combinations: {}", o.short())),
+                    }
+                }
+            };
+            if !step(rec, &format!("{}(n)", kind), d, &ps, &vs) {
+                continue;
+            }
+            // step 3: open(3) at z2; it must be bound to the transcript including the wide step
+            match do_open::<S>(&keys.ck, &pr[..3], &cr[..3], &z2, &mut ps, &sr[..3], Some(&mut rng as &mut dyn RngCore)) {
+                Ok(pf) => {
+                    let v3 = values(&[0, 1, 2], &z2);
+                    let d = do_check::<S>(&keys.vk, &cr[..3], &z2, &v3, &pf, &mut vs, Some(&mut vr as &mut dyn RngCore));
+                    if step(rec, "open(3)", d, &ps, &vs) {
+                        let mut other = before_wide.clone();
+                        let d = do_check::<S>(&keys.vk, &cr[..3], &z2, &v3, &pf, &mut other, Some(&mut vr as &mut dyn RngCore));
+                        rec.count_points(1);
+                        rec.class(&format!("skipped-step-{}", d.class()));
+                        if d.accepted() {
+                            rec.violation(&format!("C11/{}/wide/skipped-step-accepted", S::NAME), &id, format!("the proof made after {}({}) is accepted by a verifier whose sponge has not seen that step", kind, n));
+                        }
+                    }
+                }
+                Err(_) => {}
+            }
+            rec.sample(&format!("{}-wide", S::NAME), id.clone());
+        }
+    }
+}
+
 pub fn run(rec: &mut Rec) {
     let t = rec.thorough();
     scheme::<SMar>(rec, if t { 5 } else { 3 });
@@ -334,4 +462,7 @@ pub fn run(rec: &mut Rec) {
     scheme::<SLig>(rec, if t { 4 } else { 3 });
     scheme::<SMll>(rec, if t { 4 } else { 3 });
     scheme::<SBrk>(rec, if t { 4 } else { 3 });
+    crate::for_each_scheme!(S, {
+        wide_histories::<S>(rec);
+    });
 }
